@@ -142,7 +142,14 @@ impl InstructionGenerator {
         self.push(Instruction::PushRegisters, pos);
 
         // run loop body
+        // (the body of a loop with an explicit step is generated twice,
+        // the labels of the negative copy get a suffix to keep them unique)
+        let label_suffix_len = self.label_suffix.len();
+        if !is_positive {
+            self.label_suffix.push_str("_negative-step");
+        }
         self.visit(statements);
+        self.label_suffix.truncate(label_suffix_len);
 
         // to be able to resume after an error at the last statement and then pop registers
         self.mark_statement_address();
